@@ -619,7 +619,8 @@ def executed_layout(ctx, quick):
                 vals = values.ValueGen(c, rng("C14x", key or kind, proto.name, k), quiet_nan_only=True).steps(proto, stream_len=3)
                 data = c.encode_stream(proto, m.schema(proto.name), vals)
                 ctx.case(("executed", key or kind, proto.name, k))
-                for ep in eps:
+                nstreams = sum(1 for _, t in proto.steps if isinstance(c.fq(t), S))
+                for ep in eps + ([rt.CppEndpoint(m, "plain", bufs=[3] * nstreams, empty_batches=True)] if nstreams else []):
                     r = ep.copy(proto.name, "bin", "bin", data)
                     ctx.ev()
                     ctx.count("executed." + ep.name)
